@@ -188,6 +188,21 @@ def r01_hex(chk, rule="R01-hex"):
                 chk.add(Finding(rule, rule + "::radix", "hex literals are parsed with radix %s" % c, b.where(t["ln"])))
         if not asp:
             chk.add(Finding(rule, rule + "::reinterpret", "the parsed 64-bit pattern is not reinterpreted in the field's own width (AsPrimitive::as_)", b.where()))
+        # once the digits parsed as u64 the value is accepted: no error is constructed after the reinterpretation
+        succ = b.succ()
+        for bi, t in asp:
+            seen, st = set(), [bi]
+            while st:
+                x = st.pop()
+                if x in seen or b.blocks[x]["cleanup"]:
+                    continue
+                seen.add(x)
+                st.extend(succ[x])
+            for x in sorted(seen):
+                tt = b.blocks[x]["t"]
+                if tt["k"] == "call" and "ParserError" in (tt.get("res") or ""):
+                    chk.add(Finding(rule, rule + "::reject-after-reinterpret", "get_integer constructs %s after the hex digits were reinterpreted in the field's width: some bit patterns the writer produces (negative values of signed fields are written as two's complement, e.g. -16 as 0xFFFFFFF0) are refused on reload" % mir.strip_generics(tt["res"]).split("::")[-1], b.where(tt["ln"])))
+                    break
     if not found:
         chk.add(Finding(rule, rule + "::anchor", "ParserState::get_integer not found"))
     chk.rule(rule, "hex branch of get_integer: u64 pattern + reinterpretation in the field width", n, floor=1)
